@@ -56,6 +56,8 @@ var c14Callables = []c14Callable{
 	{"pf", "SI"}, {"lz", "SS"},
 	// uf: like jf, but stored as a plain func(jet.Arguments) reflect.Value (VarMap.Set), not as a jet.Func
 	{"uf", "SSI"},
+	// methods whose exported names begin with a non-ASCII upper case letter
+	{"obj.Ünï", "SS"}, {"pobj.Élan", "SI"},
 }
 
 type c14Methods struct {
@@ -71,6 +73,8 @@ func (m *c14Methods) NilSafe(a string) string {
 }
 func (m c14Methods) Join(a, b string) string       { return m.rec.note("Join", a, b) }
 func (m *c14Methods) PJoin(a string, b int) string { return m.rec.note("PJoin", a, b) }
+func (m c14Methods) Ünï(a, b string) string        { return m.rec.note("Ünï", a, b) }
+func (m *c14Methods) Élan(a string, b int) string  { return m.rec.note("Élan", a, b) }
 
 func c14Vars(log *[]string, jfName string) jet.VarMap {
 	r := c14Rec{log}
@@ -86,6 +90,10 @@ func c14Vars(log *[]string, jfName string) jet.VarMap {
 		return r.note("fv", args...)
 	})
 	vars.Set("g2", func(n int, s string) string { return r.note("g2", n, s) })
+	// variadic tails of an interface type that has methods: only values that implement it are arguments
+	vars.Set("fstr", func(a string, rest ...fmt.Stringer) string { return r.note("fstr", a, len(rest)) })
+	vars.Set("ferr", func(a string, rest ...error) string { return r.note("ferr", a, len(rest)) })
+	vars.Set("strg", mj.Strg{S: "stringer"})
 	vars.Set("fd", func(a c14Name, b int) string { return r.note("fd", string(a), b) })
 	vars.Set("fd1", func(a c14Name) string { return r.note("fd1", string(a)) })
 	// jet.Func and a reflected variadic twin must see the same argument list
@@ -204,6 +212,7 @@ func genC14(t *rapid.T) c14Case {
 			`{{ f1() }}`, `{{ f2("a") }}`, `{{ "a" | f2 }}`, `{{ f3("a", "b", "c", "d") }}`, `{{ "a" | f1: "b" }}`, `{{ pobj.PJoin("a") }}`,
 			`{{ f1(nothing) }}`, `{{ nilv | f1 }}`, `{{ f2("a", nilv) }}`, `{{ fv("a", nilv) }}`, `{{ f2("a", "b") }}`, `{{ g2("a", "b") }}`, `{{ fv("a", 1, "x") }}`,
 			`{{ f2("a", _) }}`, `{{ "a" | f3(_, _, "c") }}`,
+			`{{ fstr("a", "b") }}`, `{{ fstr("a", strg, 1) }}`, `{{ fstr: "a", iv }}`, `{{ "x" | fstr("a", _) }}`, `{{ sv | fstr: "a" }}`, `{{ ferr("a", "b") }}`, `{{ ferr("a", strg) }}`, `{{ iv | ferr("a", _) }}`, `{{ ferr: "a", mm }}`,
 			// built-ins handed values of the wrong kind (also where treating them as 0 would give a valid range)
 			`{{ range ints("2", 5) }}x{{ end }}`, `{{ range ints(-2, "x") }}x{{ end }}`, `{{ range ints(true, 3) }}x{{ end }}`, `{{ range "1" | ints: 4 }}x{{ end }}`, `{{ range ints(sv, iv) }}x{{ end }}`,
 			`{{ upper(nilv) }}`, `{{ nil | trimSpace }}`, `{{ html(mm) }}`, `{{ lower(mm.missing) }}`, `{{ url(nilv) }}`, `{{ isset() }}`, `{{ trimSpace(iv, iv) }}`,
@@ -379,6 +388,10 @@ func (c c14Case) apply() (string, []string) {
 			cur = m.Join(args[0].(string), args[1].(string))
 		case "pobj.PJoin":
 			cur = m.PJoin(args[0].(string), args[1].(int))
+		case "obj.Ünï":
+			cur = m.Ünï(args[0].(string), args[1].(string))
+		case "pobj.Élan":
+			cur = m.Élan(args[0].(string), args[1].(int))
 		case "jf", "uf":
 			// a jet.Func sees the values unconverted: numeric literals stay float64
 			var raw []interface{}
